@@ -137,3 +137,43 @@ Theorem ball_has_no_sign_change2 (f : RV2 -> R) p q : lip1_2 f -> dist2 p q < Ra
 Proof.
   intros L H. specialize (L p q). apply Rabs_le_iff in L. unfold Rabs in H. destruct (Rcase_abs (f p)); split; intros; lra.
 Qed.
+
+(* ------------------------------------------------------------------ discharging the pruning hypotheses *)
+(* prune_ok2 holds for operands whose stored box is ordered and encloses the solid, whose value
+   outside is at least the distance to the box, which are 1-Lipschitz and have a point of their
+   solid (value <= 0) inside their box.  (The first three are the operand classes of C01.) *)
+Definition prune_operand_ok (x : RObj2) : Prop :=
+  ordered2 (bb2 x) /\
+  (forall p, ev2 x p < 0 -> in_box2 (bb2 x) p) /\
+  (forall p, 0 <= ev2 x p -> exists q, in_box2 (bb2 x) q /\ dist2_2 p q <= ev2 x p * ev2 x p) /\
+  lip1_2 (ev2 x) /\
+  (exists w, in_box2 (bb2 x) w /\ ev2 x w <= 0).
+
+Lemma dist2_sq p q : dist2 p q * dist2 p q = dist2_2 p q.
+Proof. unfold dist2. rewrite len2_sq. unfold dist2_2, sub2. cbn [vx vy]. reflexivity. Qed.
+
+Lemma dist2_2_nonneg p q : 0 <= dist2_2 p q.
+Proof. rewrite <- dist2_sq. pose proof (dist2_nonneg p q). nra. Qed.
+Lemma dist2_2_self p : dist2_2 p p = 0.
+Proof. unfold dist2_2. rewrite !Rminus_diag_eq by reflexivity. lra. Qed.
+
+Theorem prune_ok2_intro (l : list RObj2) : Forall prune_operand_ok l -> prune_ok2 l.
+Proof.
+  intros H p. unfold union2_ops. rewrite !Forall_map.
+  repeat split; (eapply Forall_impl; [|exact H]); intros x (Ho & Henc & Hlb & Hlip & (w & Hw & Hw0));
+  rewrite (box2_minmax_exact _ p Ho);
+  destruct (spec2_is_distance_interval (bb2 x) p Ho) as (Hb & (q0 & Hq0 & E0) & _);
+  set (lo := fst (spec2_minmax (bb2 x) p)) in *; set (hi := snd (spec2_minmax (bb2 x) p)) in *;
+  assert (Hlo0 : 0 <= lo) by (rewrite <- E0; apply dist2_2_nonneg).
+  - unfold iv_ok. cbn [fst snd]. fold lo hi. split; [exact Hlo0|]. destruct (Hb q0 Hq0). lra.
+  - unfold lower_ok. destruct (spec2_minmax (bb2 x) p) as [lo' hi'] eqn:Es. cbn [fst snd] in *. subst lo hi. split.
+    + intros Hx. destruct (Rlt_dec (ev2 x p) 0) as [Hn|Hn].
+      * pose proof (Hb p (Henc p Hn)) as [B1 _]. rewrite dist2_2_self in B1. lra.
+      * assert (Ez : ev2 x p = 0) by lra. destruct (Hlb p ltac:(lra)) as (q & Hq & Dq). pose proof (Hb q Hq) as [B1 _].
+        rewrite Ez in Dq. lra.
+    + intros Hx. destruct (Hlb p Hx) as (q & Hq & Dq). pose proof (Hb q Hq) as [B1 _]. lra.
+  - unfold upper_ok. destruct (spec2_minmax (bb2 x) p) as [lo' hi'] eqn:Es. cbn [fst snd] in *. subst lo hi.
+    destruct (Rle_dec (ev2 x p) 0) as [Hx|Hx]; [left; exact Hx | right].
+    pose proof (Hlip p w) as L. apply Rabs_le_iff in L. pose proof (Hb w Hw) as [_ B2].
+    rewrite <- (dist2_sq p w) in B2. pose proof (dist2_nonneg p w). nra.
+Qed.
